@@ -110,8 +110,9 @@ func (g *GenOpts) analyzeSpec() (*loads.Document, *analysis.Spec, error) {
 
 	// spec preprocessing option
 	if g.PropertiesSpecOrder {
-		g.Spec = WithAutoXOrder(g.Spec)
-		specDoc, err = loads.Spec(g.Spec)
+		// the amended copy lives in a temporary directory: load it, but keep g.Spec (it is
+		// rendered in the go:generate comment of the generated code) pointing at the user's file
+		specDoc, err = loads.Spec(WithAutoXOrder(g.Spec))
 		if err != nil {
 			return nil, nil, err
 		}
